@@ -622,9 +622,15 @@ def check_c16(ctx: Ctx, job):
         gc.collect()
         s.idle_until_quiet(30)
         loader = sdl.build(cfg_l)
-        # 1. an empty dict is a no-op
+        # 1. an empty dict is a no-op (also right after a state_dict() on the not yet iterated loader)
+        if job.get("sd_before_empty"):
+            s.begin_op()
+            loader.state_dict()
         loader.load_state_dict({})
-        fresh = sdl.run_epochs(loader, 1, s)
+        try:
+            fresh = sdl.run_epochs(loader, 1, s)
+        except Exception as e:
+            fresh = [[("error-at-iter", type(e).__name__)]]
         del loader
         gc.collect()
         s.idle_until_quiet(30)
@@ -651,6 +657,19 @@ def check_c16(ctx: Ctx, job):
             outcome = ("rejected", type(e).__name__)
         it = None
         gc.collect()
+        # a second attempt without a new load must not silently start from somewhere else either
+        outcome2 = None
+        if outcome[0] == "rejected":
+            s.begin_op()
+            try:
+                it = iter(loader)
+                outcome2 = ("yielded", sdl.take(it, s))
+            except vsched.VHang as e:
+                outcome2 = ("hang", str(e))
+            except Exception as e:
+                outcome2 = ("rejected", type(e).__name__)
+            it = None
+            gc.collect()
         quiet = s.idle_until_quiet(60)
         left = [v.name for v in s.alive()]
         # 3. usable afterwards: load a valid state and iterate
@@ -690,6 +709,9 @@ def check_c16(ctx: Ctx, job):
     if outcome[0] != "rejected":
         ctx.fail("C16:not_rejected", job, f"state saved with num_workers={cfg['W']} after {n} batches, loaded with num_workers={Wl}: {outcome}")
         return
+    if outcome2 is not None and outcome2[0] != "rejected":
+        ctx.fail("C16:retry_not_rejected", job, f"the mismatching state (num_workers {cfg['W']} -> {Wl}) was rejected once, but the next iter() without a new load gave {outcome2}")
+        return
     if not quiet or left:
         ctx.fail("C16:workers_left_behind", job, f"after the rejected load {left} are still alive")
         return
@@ -712,7 +734,8 @@ def gen_c16(ctx: Ctx, n: int):
             cfg.pop("persistent", None)
         if sdl.is_iter(cfg):
             cfg["sizes"] = (list(cfg["sizes"]) * 5)[: max(Ws, 1)]
-        jobs.append({"cfg": cfg, "seed": ctx.rng.randrange(1 << 30), "Wl": Wl, "k": ctx.rng.choice([0, 1, 2, 3, 5])})
+        jobs.append({"cfg": cfg, "seed": ctx.rng.randrange(1 << 30), "Wl": Wl, "k": ctx.rng.choice([0, 1, 2, 3, 5]),
+                     "sd_before_empty": ctx.rng.random() < 0.5})
     return jobs
 
 
